@@ -173,6 +173,8 @@ func execOp(line string) string {
 		return execUDFWrite(t[1:])
 	case "live":
 		return execLive(t[1], t[2])
+	case "livex":
+		return execLiveX(t[1], un(t[3]), t[4:])
 	}
 	return "badop"
 }
@@ -772,6 +774,157 @@ func execLive(node, badk string) string {
 	t.TM.StopTask(oid)
 	other.Wait()
 	res := fmt.Sprintf("%d %d %d", count(id, true), taskErr, count(oid, false))
+	t.Rec.Reset()
+	return res
+}
+
+// ---------------------------------------------------------------------------------------------
+// task-level liveness with generated expressions: `livex <node> <fn> <expr> <point>...`
+// The task evaluates <expr> (true on the canary) in node <node>; it is fed canary, the listed points,
+// 3 canaries. Observation as for `live`, or `nocanary` when the two leading canaries did not come through
+// although the task is alive (the expression does not accept the benign canary: nothing to learn).
+
+var canaryFields = imodels.Fields{"s": "abcdef", "t": "c", "a": int64(1), "b": int64(2), "f": 1.5}
+
+func parsePointSpec(tok string) imodels.Fields {
+	f := imodels.Fields{}
+	for _, kv := range strings.Split(tok, ";") {
+		i := strings.IndexByte(kv, '=')
+		if i < 0 || len(kv) < i+3 {
+			continue
+		}
+		k, v := kv[:i], kv[i+1:]
+		switch v[0] {
+		case 's':
+			x, _ := kit.Unesc(v[2:])
+			f[k] = x
+		case 'i':
+			n, _ := strconv.ParseInt(v[2:], 10, 64)
+			f[k] = n
+		case 'f':
+			x, _ := strconv.ParseFloat(v[2:], 64)
+			f[k] = x
+		case 'b':
+			f[k] = v[2:] == "1"
+		}
+	}
+	return f
+}
+
+func execLiveX(node, expr string, pts []string) string {
+	tmpl, ok := liveNodes[node]
+	if !ok || node == "boom" {
+		return "badop"
+	}
+	t := sharedTM()
+	liveSeq++
+	id := fmt.Sprintf("livex%d", liveSeq)
+	oid := fmt.Sprintf("otherx%d", liveSeq)
+	script := fmt.Sprintf(tmpl, expr)
+	other, err := t.StartStream(oid, "stream|from().measurement('m')@sink()", dbrps)
+	if err != nil {
+		return "othererr"
+	}
+	et, err := t.StartStream(id, script, dbrps)
+	if err != nil {
+		t.TM.StopTask(oid)
+		other.Wait()
+		t.Rec.Reset()
+		return "defineerr"
+	}
+	ts := int64(0)
+	mk := func(f imodels.Fields, canary bool) (imodels.Point, bool) {
+		g := imodels.Fields{}
+		for k, v := range f {
+			g[k] = v
+		}
+		if canary {
+			g["canary"] = int64(1)
+		}
+		ts++
+		p, err := imodels.NewPoint("m", imodels.NewTags(map[string]string{"host": "a"}), g, time.Unix(ts, 0).UTC())
+		return p, err == nil
+	}
+	count := func(task string, onlyCanary bool) int {
+		n := 0
+		for _, k := range t.Rec.Keys() {
+			if !strings.HasPrefix(k, task+"/") {
+				continue
+			}
+			for _, m := range t.Rec.Get(k) {
+				if pm, ok := m.(edge.PointMessage); ok {
+					if _, c := pm.Fields()["canary"]; c || !onlyCanary {
+						n++
+					}
+				}
+			}
+		}
+		return n
+	}
+	write := func(p imodels.Point, ok bool) bool {
+		if ok {
+			t.TM.WritePoints("db", "rp", imodels.ConsistencyLevelAll, []imodels.Point{p})
+		}
+		return ok
+	}
+	finish := func() (int, bool) {
+		taskErr := 0
+		waitErr := make(chan error, 1)
+		go func() {
+			t.TM.StopTask(id)
+			waitErr <- et.Wait()
+		}()
+		select {
+		case err := <-waitErr:
+			if err != nil {
+				taskErr = 1
+			}
+		case <-time.After(12 * time.Second):
+			return 0, false
+		}
+		t.TM.StopTask(oid)
+		other.Wait()
+		return taskErr, true
+	}
+	// two canaries first: does the expression accept them at all? (two, because an alert node lets the
+	// first point through even when its expression fails)
+	write(mk(canaryFields, true))
+	write(mk(canaryFields, true))
+	deadline := time.Now().Add(3 * time.Second)
+	for time.Now().Before(deadline) && count(id, true) < 2 {
+		time.Sleep(time.Millisecond)
+	}
+	if count(id, true) < 2 {
+		te, ok := finish()
+		t.Rec.Reset()
+		if !ok {
+			return "X hang"
+		}
+		if te == 0 {
+			return "nocanary"
+		}
+		return fmt.Sprintf("0 %d 0/2", te)
+	}
+	total := 2
+	for _, ps := range pts {
+		if write(mk(parsePointSpec(ps), false)) {
+			total++
+		}
+	}
+	for i := 0; i < liveCanariesAfter; i++ {
+		write(mk(canaryFields, true))
+		total++
+	}
+	want := 2 + liveCanariesAfter
+	deadline = time.Now().Add(15 * time.Second)
+	for time.Now().Before(deadline) && (count(oid, false) < total || count(id, true) < want) {
+		time.Sleep(2 * time.Millisecond)
+	}
+	te, ok2 := finish()
+	if !ok2 {
+		return "X hang"
+	}
+	res := fmt.Sprintf("%d %d %d/%d", count(id, true), te, count(oid, false), total)
 	t.Rec.Reset()
 	return res
 }
